@@ -110,6 +110,78 @@ def run(prog, R):
         R.ob("C02.1-composite-lookahead", fn.split("::")[-1], ok, b.at, det)
 
     text_identity(prog, R, "C02.5-text-identity")
+    # ---- C02.1 the jointness bit of token n has a cell of its own: Input::bit_index(n) is tabulated for n in 0..4 words
+    # by evaluating its MIR on constants; distinct n must give distinct (word, bit) cells (two tokens sharing a bit
+    # glue or split composite punctuation far away from where the flag was set), words in increasing order
+    from sym import const_value as _cv
+    bi_ = prog.body("oq3_parser::input::Input::bit_index")
+    if bi_ is None:
+        R.ob("ANCHOR", "oq3_parser::input::Input::bit_index", False)
+    else:
+        cells, why_ = {}, None
+        for n_ in range(0, 260):
+            se_ = SymExec(prog, bi_)
+            env_ = se_.init_env()
+            env_[2] = ("c", "usize", n_)
+            rs_ = [deep_strip(p_.env.get(0)) for p_ in se_.paths(env_) if "__diverged__" not in p_.env]
+            vals_ = {(_cv(r_[1][0]), _cv(r_[1][1])) if isinstance(r_, tuple) and r_[0] == "tuple" and len(r_[1]) == 2 else (None, None) for r_ in rs_}
+            if len(vals_) != 1 or None in next(iter(vals_)):
+                why_ = f"bit_index({n_}) could not be evaluated to constants: {[show(r_)[:80] for r_ in rs_][:2]}"
+                break
+            cells[n_] = next(iter(vals_))
+        if why_ is None:
+            inv_ = {}
+            for n_, c_ in cells.items():
+                inv_.setdefault(c_, []).append(n_)
+            clash = sorted(v_ for v_ in inv_.values() if len(v_) > 1)
+            mono = all(cells[n_][0] <= cells[n_ + 1][0] for n_ in range(0, 259))
+            if clash:
+                why_ = f"tokens {clash[0][:3]} share the cell {cells[clash[0][0]]} ({len(clash)} shared cells for n < 260): setting or clearing the jointness flag of one changes the other's"
+            elif not mono:
+                why_ = "word indices are not non-decreasing in n: push() grows the vector by position"
+        R.ob("C02.1-jointness-cells", "Input::bit_index", why_ is None, bi_.at, why_ or "260 token positions map to 260 distinct (word, bit) cells, words non-decreasing")
+    # ---- C02.4 every tree handed out by the text entry points is the one build_tree made from the whole lexed input
+    # and the parser's output for it (no short cut that builds a tree by hand: its leaves would not be the input)
+    from sym import show as _show
+    for fn_ in ("oq3_syntax::parsing::parse_text", "oq3_syntax::parsing::parse_text_check_lex"):
+        eb_ = prog.body(fn_)
+        if eb_ is None:
+            R.ob("ANCHOR", fn_, False)
+            continue
+        from sym import term_contains_all as _tca
+
+        def _calls(t_, suffix):
+            return _tca(t_, lambda x: isinstance(x, tuple) and len(x) > 2 and x[0] == "call" and isinstance(x[1], str) and x[1].endswith(suffix))
+
+        def _is_built(node):
+            # node = <build_tree(LexedStr::new(text), parse(.., to_input(LexedStr::new(text))))>.0, maybe in Some(..)
+            if isinstance(node, tuple) and node[0] == "adt" and node[1].endswith("Option::None"):
+                return True
+            if isinstance(node, tuple) and node[0] == "adt" and node[1].endswith("Option::Some") and node[2]:
+                node = deep_strip(node[2][0])
+            if not (isinstance(node, tuple) and node[0] == "field" and node[2] == 0):
+                return False
+            bt = deep_strip(node[1])
+            if not (isinstance(bt, tuple) and bt[0] == "call" and bt[1].endswith("parsing::build_tree") and len(bt[2]) == 2):
+                return False
+            lexed, out = bt[2]
+            lx = _calls(lexed, "LexedStr::new")
+            pr = _calls(out, "TopEntryPoint::parse")
+            ti = [x for c in pr for x in _calls(c, "LexedStr::to_input")]
+            lx2 = [x for c in ti for x in _calls(c, "LexedStr::new")]
+            return bool(lx and pr and ti and lx2) and all(deep_strip(x[2][0])[0] == "arg" for x in lx + lx2)
+        bad_, n_ = [], 0
+        for p_ in SymExec(prog, eb_, max_paths=2000).paths():
+            if "__diverged__" in p_.env:
+                continue
+            n_ += 1
+            r_ = deep_strip(p_.env.get(0))
+            node_ = deep_strip(r_[1][0]) if isinstance(r_, tuple) and r_[0] == "tuple" else None
+            if not _is_built(node_):
+                bad_.append(_show(node_)[:120] if node_ else "?")
+        R.ob("C02.4-entry-tree-is-built-tree", fn_.split("::")[-1], not bad_ and n_ > 0, eb_.at,
+             f"{n_} returning path(s): the tree is build_tree(LexedStr::new(text), parse(to_input(..))).0 (or None)" if not bad_ else
+             f"a path returns a tree that is not the result of build_tree over the lexed input: {bad_[:2]}: the leaves of that tree are not the tokens of the input (whitespace, comments lost)")
     R.premises(prog, "C02.2-token-lengths-premise", ["C14:C14.4-", "C14:C14.2-"], "the tree builder slices the input by the token lengths recorded by the converter: they must sum to the input length (C14)")
     # ---- C02.2 count identities
     db = R.anchor(prog, PP + "Parser::do_bump")
